@@ -57,6 +57,9 @@ def run(ctx):
         cases.append(('lagrange-add %s' % tname, 'fft 5 %d %s %s' % (N, fmt(b), fmt(c)), [vlib.w32(x + y) for x, y in zip(b, c)], 2))
         cases.append(('add-constant %s' % tname, 'fft 6 %d %s %d' % (N, fmt(b), mu), [vlib.w32(b[0] + mu)] + b[1:], 1))
         cases.append(('set-constant', 'fft 7 %d %d' % (N, mu), [mu] + [0] * (N - 1), 1))
+        hi = rng.choice([2**31 - 1, 1 << 21, 2**32 - 1, 123456789])
+        cases.append(('add-constant %s, constant passed in a register with a dirty upper half' % tname, 'fft 16 %d %s %d %d' % (N, fmt(b), mu, hi), [vlib.w32(b[0] + mu)] + b[1:], 1))
+        cases.append(('set-constant, constant passed in a register with a dirty upper half', 'fft 17 %d %d %d' % (N, mu, hi), [mu] + [0] * (N - 1), 1))
     cases.append(('clear', 'fft 8 %d' % N, [0] * N, 0))
     for T in ((2, 6) if not thorough else (2, 3, 4, 5, 6)):
         for shape in (0, 1):
